@@ -138,7 +138,7 @@ def gen_case(rng, tier):
     ordered = [d for d in s.docs]
     # exactly one unsafe element per case (an unsafe node that is refused aborts the build and would mask everything after it);
     # everything else is safe and must keep working
-    focus = rng.choice(['dyn', 'dyn', 'taint', 'taint', 'deep', 'deep', 'rename', 'alias', 'rec', 'override', 'late_marker', 'tagged_fstr', 'dyn_key'])
+    focus = rng.choice(['dyn', 'dyn', 'taint', 'taint', 'deep', 'deep', 'rename', 'alias', 'rec', 'override', 'late_marker', 'tagged_fstr', 'dyn_key', 'placeholder'])
     # --- dynamic nodes with merge histories
     keys = []
     n_dyn = rng.choice([1, 1, 2, 3])
@@ -418,6 +418,16 @@ def gen_case(rng, tier):
         shape = rng.choice([f'dk{i}: !unsafe {{ {key}: 1, z: 2 }}\n', f'dk{i}: !unsafe\n  m:\n    {key}: 1\n', f'--- !unsafe\ndk{i}:\n  {key}: 1\n',
                             f"dk{i}: !metadata{{{{'safe': False}}}}\n  {key}: [1]\n"])
         sources.append({'text': shape, 'safe': True})
+    if focus == 'placeholder':
+        # a direct reference INTO a top-level mapping is evaluated first (the mapping is only half-evaluated then), next comes code
+        # that reaches for an unsafe entry of that mapping by name, the mapping itself is written last
+        i, i2 = s.uid(), s.uid()
+        taint = f'"TAINT{i2}"'
+        pa = rng.choice([f'pa{i}: {{k: 1, b: !unsafe {taint}}}', f'pa{i}: {{k: 1, sub: !unsafe {{b: {taint}}}}}', f'pa{i}: {{k: 1, b: !metadata{{{{\'safe\': False}}}} {taint}}}'])
+        acc = "['sub']['b']" if 'sub:' in pa else "['b']"
+        use = rng.choice([f'use{i}: !eval "T.s{i}(pa{i}{acc})"', f'use{i}: !eval "T.s{i}(ayns.cfg.pa{i}{acc})"', f"use{i}: !fstr \"v{{T.s{i}(pa{i}{acc}).name}}\"",
+                          f'use{i}: !eval "x = pa{i}\\nT.s{i}(x{acc})"'])
+        sources.append({'text': f'first{i}: !xref pa{i}.k\n{use}\n{pa}\n', 'safe': True})
     if focus == 'late_marker':
         # a later stage marks the container !unsafe: what the container already held is below an !unsafe node from then on
         i = s.uid()
